@@ -285,8 +285,10 @@ async def islice(iterable: AnyIterable[T], *args: Optional[int]) -> AsyncIterato
             async for _count, element in aenumerate(_borrow(async_iter), start=1):
                 if _count == start:
                     break
+        # the helper iterators must only borrow: they may be abandoned half-way,
+        # closing ``async_iter`` is up to the enclosing scope
         if stop is None:
-            async for idx, element in aenumerate(async_iter, start=0):
+            async for idx, element in aenumerate(_borrow(async_iter), start=0):
                 if not idx % step:
                     yield element
         elif stop <= start:
@@ -295,7 +297,7 @@ async def islice(iterable: AnyIterable[T], *args: Optional[int]) -> AsyncIterato
             # We would actually check ``idx >= stop -1`` later on.
             # Since we do that for every ``idx``, we subtract ``1`` once here.
             stop -= start + 1
-            async for idx, element in aenumerate(async_iter, start=0):
+            async for idx, element in aenumerate(_borrow(async_iter), start=0):
                 if not idx % step:
                     yield element
                 if idx >= stop:
